@@ -1,6 +1,5 @@
 import Fs.Core.Wire
 import Fs.Model.Types
-<<<<<<< HEAD
 /-! Driver handler for the `types` model (C01). -/
 namespace Fs.Drv.Types
 open Fs.Wire Fs.Types
@@ -97,43 +96,6 @@ def handle : List String → String
         | none => "out=ERR"
         | some (d, c) => s!"out={show' d "TGT"}\tsrc={show' d "SRC"}\tby={show' d "BY"}\tcount={c}"
       | _ => "bad-op"
-=======
-/-!
-Driver handler for the `types` model (C06).
-`col <duck type>`  → impl=<code>|<precision>|<scale>|<length> or impl=raise	py=<python type|->	agrees=<0|1|->
-`kind <kind>`      → describe=<ofResult|ofOther|raises>
--/
-namespace Fs.Drv.Types
-open Fs.Wire Fs.Types
-
-def encPy : PyType → String
-  | .int => "int" | .decimal => "Decimal" | .float => "float" | .str => "str" | .date => "date" | .time => "time"
-  | .datetime => "datetime" | .datetimeTz => "datetime-tz" | .bytes => "bytes" | .bool => "bool"
-
-def parseKind : String → Option Kind
-  | "query" => some .query | "statusSelect" => some .statusSelect | "seededQuery" => some .seededQuery
-  | "txControl" => some .txControl | "use" => some .use | "rawCommand" => some .rawCommand
-  | "beforeExecute" => some .beforeExecute | _ => none
-
-def handle : List String → String
-  | ["col", t] =>
-    let ty := decStr t
-    let py := pyOf ty
-    match asColumnInfo ty with
-    | none => s!"impl=raise\tpy={(py.map encPy).getD "-"}\tagrees=-"
-    | some ci =>
-      let ag := match py with
-        | some p => encBool (agrees ci p)
-        | none => "-"
-      s!"impl={ci.type.code}|{encOptNat ci.precision}|{encOptNat ci.scale}|{encOptNat ci.length}\tpy={(py.map encPy).getD "-"}\tagrees={ag}"
-  | ["kind", k] =>
-    match parseKind k with
-    | none => "bad-op"
-    | some k =>
-      let d := match describeLast k with
-        | .ofResult => "ofResult" | .ofOther => "ofOther" | .raises => "raises"
-      s!"describe={d}"
->>>>>>> build-C
   | _ => "bad-op"
 
 end Fs.Drv.Types
